@@ -55,3 +55,63 @@ func c03TempMaps(e *Env) {
 			Replay: map[string]any{"kind": "temp-maps", "template": tpl, "iterations": iters, "first_difference_at": at, "class": res.Class, "err": fmt.Sprint(res.Err)}})
 	}
 }
+
+// c03EvalOrder: the order in which the entries of a hash literal or of an include's `with` list are evaluated is
+// observable (user callbacks run, and when two entries fail the first failure is the reported one): it must be the
+// same on every render, and it is the source order.
+func c03EvalOrder(e *Env) {
+	r := e.Rep
+	names := []string{"k9", "a", "m", "z1", "b", "q", "e", "c0", "x", "d", "k1", "w"}
+	var entries, hashEntries []string
+	var spies []string
+	for i, n := range names {
+		fn := fmt.Sprintf("s%d", i)
+		spies = append(spies, fn)
+		entries = append(entries, "'"+n+"': "+fn+"()")
+		hashEntries = append(hashEntries, "'"+n+"': "+fn+"()")
+	}
+	forms := map[string]string{
+		"include-with":      "{% include 'p' with {" + strings.Join(entries, ", ") + "} %}",
+		"include-with-only": "{% include 'p' with {" + strings.Join(entries, ", ") + "} only %}",
+		"hash-literal":      "{% set h = {" + strings.Join(hashEntries, ", ") + "} %}{{ h|length }}",
+	}
+	for _, form := range sortedKeys(forms) {
+		var first []Ev
+		firstErr := map[int]string{}
+		for rep := 0; rep < 25 && !r.Full(); rep++ {
+			c := &Case{Templates: map[string]string{"main": forms[form], "p": "."}, Main: "main", Ctx: map[string]any{}, SpyFunctions: spies, FailAt: -1}
+			im := runImpl(c)
+			r.Seen(fmt.Sprintf("eval-order:%s:%d", form, rep), true)
+			inOrder := len(im.Spies) == len(spies)
+			for i := range im.Spies {
+				if i < len(spies) && im.Spies[i].Name != spies[i] {
+					inOrder = false
+				}
+			}
+			if rep == 0 {
+				first = im.Spies
+			}
+			if im.Class != "" || !inOrder || !sameEvs(first, im.Spies) {
+				if r.Violate(Violation{Key: "evaluation-order-varies", What: fmt.Sprintf("%s: the entries were evaluated in the order %v (render %d; first render %v), the source order is %v", form, im.Spies, rep, first, spies),
+					Broken: "theorem C03_hash_literal_order / evalPairs in source order (implementation-only oracle on callback order)", Replay: c.replay(im, Outcome{})}) {
+					return
+				}
+				break
+			}
+			// two failing entries: always the same one is reported
+			for _, at := range []int{3, 7} {
+				c2 := *c
+				c2.FailAt = at
+				im2 := runImpl(&c2)
+				if rep == 0 {
+					firstErr[at] = fmt.Sprint(im2.Class, im2.Causes, len(im2.Spies))
+				} else if got := fmt.Sprint(im2.Class, im2.Causes, len(im2.Spies)); got != firstErr[at] {
+					if r.Violate(Violation{Key: "evaluation-order-varies", What: fmt.Sprintf("%s with the %d-th callback failing: %s on render %d, %s on the first render", form, at, got, rep, firstErr[at]),
+						Broken: "theorem C03_hash_literal_order (implementation-only oracle)", Replay: c2.replay(im2, Outcome{})}) {
+						return
+					}
+				}
+			}
+		}
+	}
+}
